@@ -110,7 +110,8 @@ CLAIMED = {
              "credential-using agent implies MESSAGE-INTEGRITY = hmac(key)(RFC-defined prefix) for the key bound to USERNAME or to "
              "the matching request (exemptions spelled out), FINGERPRINT = CRC-32 xor 0x5354554e where in use (CRC table "
              "regenerated from stuncrc32.c and proved equal to the polynomial definition by decide +kernel), a response passes "
-             "only with an outstanding request of the same id and method and at most once. Model incl. executable SHA-1/HMAC/MD5 "
+             "only with an outstanding request of the same id and method and at most once; the default validater hands out a key only "
+             "for a table entry whose name IS the message's USERNAME (C04_default_validater_exact_name). Model incl. executable SHA-1/HMAC/MD5 "
              "is tied byte for byte to the real library and GnuTLS; an independent Python HMAC/CRC oracle checks every SUCCESS "
              "on the C side, with single/multi-byte corruptions and replay/reorder scripts.",
         note="Trusted: Lean kernel, Stun agent model, stun_drv, GnuTLS as reference for the executable hashes; "
@@ -200,20 +201,25 @@ CLAIMED = {
              "decided on the real code by a healing driver (lossy/duplicating/reordering schedules up to a healing time in 0..120 s, "
              "buffers 1 KiB..1 MiB, Nagle, ack-delay, MTU, FIN-ACK support on either side, clock origins at the 32-bit wrap). Two "
              "genuine defects (silent hang when a timer is armed at clock value 0; assertion when WritePacket fails inside shutdown) "
-             "were fixed in /repo.",
+             "were fixed in /repo, and a third found late (3fc62b4: with window scaling a window below 2^scale is advertised as 0 but the "
+             "window update was only sent when rcv_wnd was exactly 0: abort after a 16 s reader stall on a loss-free network). Kernel "
+             "theorems about the window as the peer sees it (Props/C09Window): the scaled buffer size always fits the 16-bit field, an "
+             "empty buffer of any configured size advertises a non-zero window, recv's closed test equals the advertised field.",
         note="Trusted: Lean kernel, PTcp model + ptcp_drv; liveness is a simulation claim, not a theorem.",
         technique="Lean 4 invariants on the executable model + differential correspondence + healing-schedule oracle",
         design="5/C09"),
     "C10": dict(
         text="Lean 4 theorems on the PTcp model for ALL byte strings: a packet with another conversation number (or too short / too "
-             "long) changes nothing and emits nothing, option parsing never faults and terminates, the accepted window scale is <= 14 so "
+             "long) changes nothing and emits nothing, option parsing never faults and terminates, only a well-formed window-scale option "
+             "changes the peer's scale factor, the accepted window scale is <= 14 so "
              "the shift never faults, fifo bounds are preserved by every fifo operation, undelivered data never exceeds the receive "
              "buffer, and the invariant Inv0 (fifo, scale and RTO bounds) is preserved by every public operation over every history "
              "(C10_inv_preserved_partial: tiling/rlist/state pieces of the full invariant are not proved). The window property holds "
              "per round outside FIN/RST flushes (C10_respects_window_partial); the full statement is FALSE for this code — proved by a "
              "kernel-checked counterexample and recorded as a known finding (shutdown/close flush the whole queue). Runtime conjunct: "
              "~12 000 hostile packets per quick run (boundary seq/ack, any flags/window/options incl. scale 0..255) in every state under "
-             "ASan/UBSan with whole-state comparison; five genuine assertion/UB defects found this way were fixed in /repo.",
+             "ASan/UBSan with whole-state comparison; five genuine assertion/UB defects found this way were fixed in /repo. A hand-made "
+             "peer whose every ACK we build gives the advertised window independently of the socket's belief (W16 << advertised scale).",
         note="Trusted: Lean kernel, PTcp model + ptcp_drv, sanitizers for the compiled C.",
         technique="Lean 4 proof of no-op/no-fault/bounds invariants over all inputs + hostile-packet differential correspondence",
         design="5/C10"),
@@ -234,7 +240,8 @@ CLAIMED = {
              "indication / ChannelData produced for (peer, payload) decodes at an independent RFC 5766 reference relay to exactly that "
              "peer and payload (IPv4/IPv6, any transaction id, any accepted length), what the relay forwards is handed up with the "
              "same payload and peer for a general channel table, data for a peer without permission is queued FIFO and flushed "
-             "completely when the permission answer arrives or times out, and no relay byte string makes the receive path fault. "
+             "completely when the permission answer arrives or times out, a 438 Stale Nonce answer is a re-authentication round and never an "
+             "answer (the request is repeated, nothing is released), and no relay byte string makes the receive path fault. "
              "Tied to the real nice_udp_turn_socket over a scripted base with request timers on the virtual clock, 401/438 rounds, "
              "orders of permission/channel-bind completion, hostile relay datagrams in exactly-sized buffers. Two genuine defects "
              "were fixed; one (RFC 3489-style padding counted in the DATA length in GOOGLE/MSN mode) is a known finding. Additionally a theorem about the skeleton of socket/udp-turn.c socket_send_message that tools/extract_flow.py REGENERATES from the source on every run: on an RFC 5766 socket a wrapped message leaves towards the relay only with a permission for that peer (C16_no_send_without_permission).",
